@@ -99,6 +99,11 @@ def all_cases(tier):
         for imp, expr in DOTTED_REFS:
             for site in SITES:
                 yield (pos, ("stmt:" + imp,), "none", "none", site, expr)
+        # a module-level name spelled like the enclosing module itself (e.g. `import types` inside pkg/types.py)
+        leaf = POSITIONS[pos].rsplit(".", 1)[-1]
+        for site in SITES:
+            yield (pos, (f"stmt:import ext as {leaf}",), "none", "none", site, f"{leaf}.X")
+            yield (pos, (f"stmt:from ext import X as {leaf}",), "none", "none", site, leaf)
         for _lbl, expr in UNBOUND:
             if expr == "sub" and pos == "pkg/__init__.py":
                 continue  # `sub` is a submodule of pkg: whether the package namespace binds it depends on import order (not judged)
